@@ -48,9 +48,9 @@ NDown(nf) == nf - NUp(nf)
 
 (* sum_q c[q] (q + sgn qbar) *)
 PM(c, sgn) ==
-  [j \in 1..N |-> LET p == Pids[j]
-                  IN IF p \in 1..6 THEN c[p]
-                     ELSE IF -p \in 1..6 THEN RMul(RInt(sgn), c[-p]) ELSE RZero]
+  TLCEval([j \in 1..N |-> LET p == Pids[j]
+                          IN IF p \in 1..6 THEN c[p]
+                             ELSE IF -p \in 1..6 THEN RMul(RInt(sgn), c[-p]) ELSE RZero])
 
 Gluon == UnitVec(N, Idx(21))
 Photon == UnitVec(N, Idx(22))
@@ -167,6 +167,9 @@ SectorElems(lab, nf, qed) ==
          [] lab[1] = NsPlusD -> DiagOver(UniTd, DownLike, nf)
          [] lab[1] = NsMinusU -> DiagOver(UniVu, UpLike, nf)
          [] lab[1] = NsMinusD -> DiagOver(UniVd, DownLike, nf)
+ElemSeq(es) ==           \* the elements in a fixed order (each source occurs once in a sector)
+  LET src == SelectSeq(AllLabels, LAMBDA l : \E e \in es : e[1] = l)
+  IN [k \in 1..Len(src) |-> CHOOSE e \in es : e[1] = src[k]]
 IsDiagonalSector(lab) == lab[2] = 0 \/ lab[1] = lab[2]
 DiagonalSectors(qed) == {l \in SectorLabels(qed) : IsDiagonalSector(l)}
 
@@ -210,6 +213,14 @@ C31_SectorMap(P, lab, nf, qed) ==
 (* name of the first distribution on which the map is wrong (for the verdict) *)
 C31_SectorMapFailing(P, lab, nf, qed) ==
   CHOOSE x \in Basis(nf, qed) : VecMat(Dist(x, nf), P) # SectorImage(x, lab, nf, qed)
+
+(* the map with these images on the complete basis is unique; written out from Part 1:   *)
+(* sum over the elements of  source^T target / (source . source)                          *)
+SectorMapRef(lab, nf, qed) ==
+  LET es == ElemSeq(SectorElems(lab, nf, qed))
+  IN MatSum([k \in 1..Len(es) |->
+               LET s == Dist(es[k][1], nf)
+               IN Outer(VScale(RInv(Dot(s, s)), s), Dist(es[k][2], nf))], N, N)
 
 C31_Idempotent(P) == MatMul(P, P) = P
 C31_MutuallyOrthogonal(Ps) ==
@@ -338,13 +349,12 @@ C46_Family(reprs) ==        \* the hypothesis: an orthogonal family of non-zero 
   (\A k \in 1..Len(reprs) : IsRatVec(reprs[k], N)) /\ (reprs = <<>> \/ OrthogonalRows(reprs))
 (* the components along the selected combinations are kept *)
 C46_Keeps(reprs, X, Y) == \A k \in 1..Len(reprs) : VecMat(reprs[k], Y) = VecMat(reprs[k], X)
-(* residual of the unit vector j after removing its components along the family: these   *)
-(* 14 vectors span the orthogonal complement of the selection                             *)
-Residual(reprs, j) ==
-  VSub(UnitVec(N, j),
-       VSum([k \in 1..Len(reprs) |-> VScale(RDiv(reprs[k][j], Dot(reprs[k], reprs[k])), reprs[k])], N))
-C46_Removes(reprs, Y) ==
-  \A j \in 1..N : IsZeroVec(VecMat(Residual(reprs, j), Y))
+(* nothing orthogonal to the selection survives: the result lies in the span of the     *)
+(* family, i.e. it is recovered from its components along the (orthogonal) combinations  *)
+Reconstruct(reprs, Y) ==
+  MatSum([k \in 1..Len(reprs) |->
+            Outer(VScale(RInv(Dot(reprs[k], reprs[k])), reprs[k]), VecMat(reprs[k], Y))], N, Cols(Y))
+C46_Removes(reprs, Y) == Y = Reconstruct(reprs, Y)
 C46_Projection(reprs, X, Y, Y2) ==
   /\ C46_Keeps(reprs, X, Y)
   /\ C46_Removes(reprs, Y)
@@ -400,8 +410,8 @@ CodeRotUni == IntMat(<<
 PosIn(s, x) == CHOOSE k \in 1..Len(s) : s[k] = x
 CodeRow(l, qed) == IF qed THEN CodeRotUni[PosIn(CodeUniBasis, l)] ELSE CodeRotQcd[PosIn(CodeEvolBasis, l)]
 (* zero the heavy quark entries (and, in ad_projector, the first slot = photon) *)
-CutHeavy(w, nf) == [j \in 1..N |-> IF nf < Abs(Pids[j]) /\ Abs(Pids[j]) <= 6 THEN RZero ELSE w[j]]
-CutProj(w, nf) == [j \in 1..N |-> IF j <= 1 + (6 - nf) \/ j > N - (6 - nf) THEN RZero ELSE w[j]]
+CutHeavy(w, nf) == TLCEval([j \in 1..N |-> IF nf < Abs(Pids[j]) /\ Abs(Pids[j]) <= 6 THEN RZero ELSE w[j]])
+CutProj(w, nf) == TLCEval([j \in 1..N |-> IF j <= 1 + (6 - nf) \/ j > N - (6 - nf) THEN RZero ELSE w[j]])
 
 (* flavors.py: rotate_pm_to_flavor, pids_from_intrinsic_evol, pids_from_intrinsic_unified_evol *)
 RotatePm(l) ==
@@ -460,10 +470,8 @@ ProjRow(l, nf, qed) ==
        THEN CodeDelta(nf, IF l = "Sdelta" THEN 1 ELSE -1)
        ELSE IF l = "ph" THEN CodeRow(l, TRUE) ELSE CutProj(CodeRow(l, TRUE), nf)
 AdProjector(lab, nf, qed) ==
-  LET es == SectorElems(lab, nf, qed)
-      src == SelectSeq(AllLabels, LAMBDA l : \E e \in es : e[1] = l)
-      seqOf == [k \in 1..Len(src) |-> CHOOSE e \in es : e[1] = src[k]]
-  IN MatSum([k \in 1..Len(src) |->
+  LET seqOf == ElemSeq(SectorElems(lab, nf, qed))
+  IN MatSum([k \in 1..Len(seqOf) |->
                LET o == ProjRow(seqOf[k][1], nf, qed)
                    i == ProjRow(seqOf[k][2], nf, qed)
                IN MatScale(RInv(Dot(o, o)), Outer(o, i))], N, N)
